@@ -191,4 +191,178 @@ getAlignedPairs = FunctionSpec(
          "in (reference, query) order, each with offset = query position - (reference position - seed)",
 )
 
-SPECS = [getReferencePositionsWithinRange, getAlignedPairs]
+
+# ------------------------------------------------------------------ __getNotAlignedPositions
+NAP = OBJ('NotAlignedReferencePosition', 'NotAlignedQueryPosition')
+
+
+def _paired_ref(P, sid):
+    k = z3.Int(fresh_name('pk'))
+    return z3.Exists([k], z3.And(rng(0, k, P.len), P[k].reference.siteId == sid))
+
+
+def _paired_qry(P, sid):
+    k = z3.Int(fresh_name('pk'))
+    return z3.Exists([k], z3.And(rng(0, k, P.len), P[k].query.siteId == sid))
+
+
+def _gna_ensures(C, res):
+    R, Q, P = C.referencePositions, C.queryPositions, C.alignedPairs
+    e = C._e
+    k, i, j = z3.Int('k'), z3.Int('i'), z3.Int('j')
+    cl = []
+    if C.has('F') and len(e.filter_log) >= 2:
+        f1, f2 = e.filter_log[-2], e.filter_log[-1]
+    elif not C.has('F'):
+        # at call sites: the same clauses over skolem functions
+        mk = lambda nm: z3.Function(fresh_name(nm), z3.IntSort(), z3.IntSort())
+        f1 = dict(idx=mk('un_ref_idx'), inv=mk('un_ref_inv'), m=z3.Int(fresh_name('un_ref_n')))
+        f2 = dict(idx=mk('un_qry_idx'), inv=mk('un_qry_inv'), m=z3.Int(fresh_name('un_qry_n')))
+        cl.append(('counts_nonnegative', z3.And(f1['m'] >= 0, f2['m'] >= 0)))
+        e.last_unpaired = (f1, f2)
+    else:
+        f1 = None
+    if f1 is not None:
+        m1, m2 = f1['m'], f2['m']
+        cl += [('unpaired_reference_labels_first_then_unpaired_query_labels', res.len == m1 + m2),
+               ('each_unpaired_reference_position_is_a_window_label_in_no_pair', forall(k, z3.Implies(rng(0, k, m1), z3.And(
+                   res[k].isa('NotAlignedReferencePosition'), 0 <= f1['idx'](k), f1['idx'](k) < R.len,
+                   res[k].as_('NotAlignedReferencePosition').reference.ref == R.raw(f1['idx'](k)).t,
+                   z3.Not(_paired_ref(P, R[f1['idx'](k)].siteId)))), [res.raw(k).t])),
+               ('each_unpaired_query_position_is_a_query_label_in_no_pair_and_carries_the_seed', forall(k, z3.Implies(rng(0, k, m2), z3.And(
+                   res[m1 + k].isa('NotAlignedQueryPosition'), 0 <= f2['idx'](k), f2['idx'](k) < Q.len,
+                   res[m1 + k].as_('NotAlignedQueryPosition').query.ref == Q.raw(f2['idx'](k)).t,
+                   res[m1 + k].as_('NotAlignedQueryPosition').referenceStart == C.referenceStartPosition,
+                   z3.Not(_paired_qry(P, Q[f2['idx'](k)].siteId)))), [f2['idx'](k)])),
+               ('every_window_label_in_no_pair_is_listed', forall(i, z3.Implies(z3.And(rng(0, i, R.len), z3.Not(_paired_ref(P, R[i].siteId))),
+                                                                           z3.And(0 <= f1['inv'](i), f1['inv'](i) < m1, f1['idx'](f1['inv'](i)) == i)), [R.raw(i).t])),
+               ('every_query_label_in_no_pair_is_listed', forall(j, z3.Implies(z3.And(rng(0, j, Q.len), z3.Not(_paired_qry(P, Q[j].siteId))),
+                                                                          z3.And(0 <= f2['inv'](j), f2['inv'](j) < m2, f2['idx'](f2['inv'](j)) == j)), [Q.raw(j).t]))]
+    return cl
+
+
+getNotAlignedPositions = FunctionSpec(
+    file=F, qualname='AlignerEngine.__getNotAlignedPositions',
+    params=dict(queryPositions=LIST(PWS), referencePositions=LIST(PWS), alignedPairs=LIST(UPAIR), referenceStartPosition=REAL), returns=LIST(NAP),
+    ensures=_gna_ensures, serves=('C12', 'C04'),
+    note="unpaired = complement by label number: exactly the window labels / query labels that occur in no kept pair, each once, in label order; "
+         "unpaired query positions carry the seed offset")
+
+
+# ------------------------------------------------------------------ AlignerEngine.align (glue over the callee contracts)
+POS = OBJ('AlignedPair', 'NotAlignedReferencePosition', 'NotAlignedQueryPosition')
+
+
+def _abs_position(p):
+    """AlignmentPosition.absolutePosition of the three position classes"""
+    return z3.If(p.isa('NotAlignedQueryPosition'), p.as_('NotAlignedQueryPosition').query.position + p.as_('NotAlignedQueryPosition').referenceStart,
+                 z3.If(p.isa('AlignedPair'), p.as_('AlignedPair').reference.position, p.as_('NotAlignedReferencePosition').reference.position))
+
+
+def _align_requires(C):
+    return [('reference_ascending', ascending(C.reference.positions)), ('query_ascending', ascending(C.query.positions)),
+            ('maxDistance_nonnegative', C.self.maxDistance >= 0)]
+
+
+def _align_ensures(C, res):
+    k, k2 = z3.Int('k'), z3.Int('k2')
+    d, start = C.self.maxDistance, C.referenceStartPosition
+    cl = [('ascending_position_order', forall([k, k2], z3.Implies(z3.And(0 <= k, k <= k2, k2 < res.len), _abs_position(res[k]) <= _abs_position(res[k2])),
+                                              [MP(res.raw(k).t, res.raw(k2).t)]))]
+    if C.has('F'):
+        Fv = C.F
+        pairs, un = Fv.deduplicatedAlignedPairs, Fv.notAlignedPositions
+        cl.append(('result_is_a_permutation_of_kept_pairs_and_unpaired_positions', res.len == pairs.len + un.len))
+        R, Q = Fv.referencePositions, Fv.queryPositions
+        f1, f2 = C._e.last_unpaired
+        i, j = z3.Int('i'), z3.Int('j')
+        cl.append(('every_window_reference_label_is_in_a_kept_pair_or_listed_unpaired_not_both', forall(i, z3.Implies(rng(0, i, R.len), z3.Or(
+            _paired_ref(pairs, R[i].siteId),
+            z3.And(0 <= f1['inv'](i), f1['inv'](i) < f1['m'], un[f1['inv'](i)].isa('NotAlignedReferencePosition'),
+                   un[f1['inv'](i)].as_('NotAlignedReferencePosition').reference.ref == R.raw(i).t))), [R.raw(i).t])))
+        cl.append(('every_query_label_is_in_a_kept_pair_or_listed_unpaired_not_both', forall(j, z3.Implies(rng(0, j, Q.len), z3.Or(
+            _paired_qry(pairs, Q[j].siteId),
+            z3.And(0 <= f2['inv'](j), f2['inv'](j) < f2['m'], un[f1['m'] + f2['inv'](j)].isa('NotAlignedQueryPosition'),
+                   un[f1['m'] + f2['inv'](j)].as_('NotAlignedQueryPosition').query.ref == Q.raw(j).t))), [Q.raw(j).t])))
+        cl.append(('kept_pairs_use_each_label_number_at_most_once', forall([k, k2], z3.Implies(z3.And(0 <= k, k < k2, k2 < pairs.len), z3.And(
+            pairs[k].reference.siteId < pairs[k2].reference.siteId, pairs[k].query.siteId != pairs[k2].query.siteId)), [MP(pairs.raw(k).t, pairs.raw(k2).t)])))
+        cl.append(('every_kept_pair_is_within_maxDistance_with_offset_relative_to_the_seed', forall(k, z3.Implies(rng(0, k, pairs.len), z3.And(
+            pairs[k].queryShift == pairs[k].query.position - (pairs[k].reference.position - start),
+            pairs[k].queryShift <= d, -d <= pairs[k].queryShift)), [pairs.raw(k).t])))
+    return cl
+
+
+align = FunctionSpec(
+    file=F, qualname='AlignerEngine.align',
+    params=dict(self=ENGINE, reference=OMAP, query=OMAP, referenceStartPosition=REAL, referenceEndPosition=REAL, isReverse=BOOL), returns=LIST(POS),
+    requires=_align_requires, ensures=_align_ensures, serves=('C12', 'C01', 'C04'),
+    note="glue: window -> candidates -> two de-duplication passes -> unpaired complement -> sort by position; callers are checked against the callee contracts "
+         "(in particular the query label list handed to the candidate search is ascending on both strands)")
+
+SPECS = [getReferencePositionsWithinRange, getAlignedPairs, getNotAlignedPositions, align]
+
+
+# ------------------------------------------------------------------ lemmas over the contracts (C12)
+from pyvc.lemma import LemmaSpec
+
+
+def _strict_ids(L_):
+    A = Abs(L_)
+    I, J = z3.Int('I'), z3.Int('J')
+    ti, tj = A.raw(I).t, A.raw(J).t
+    return forall([I, J], z3.Implies(z3.And(A.lo <= I, I < J, J < A.hi), A[I].siteId < A[J].siteId), [MP(ti, tj)])
+
+
+def _selector(L, name):
+    ci = L.e.repo.cls('AlignedPair')
+    return VFunc('def', (ci.methods[name], ci.module, ci, None))
+
+
+def _setup(L):
+    from specs.dedupe import deduplicateByKey
+    eng = L.fresh(ENGINE, 'engine')
+    R, Q = L.fresh(LIST(PWS), 'R'), L.fresh(LIST(PWS), 'Q')
+    start = L.fresh(REAL, 'start')
+    Rv, Qv = L.view(R), L.view(Q)
+    L.assume(ascending_pws(Rv), ascending_pws(Qv), _strict_ids(Rv), _strict_ids(Qv), L.view(eng).maxDistance >= 0)
+    X = L.call(getAlignedPairs, eng, R, Q, start)
+    gap = L.e.last_gap
+    D1 = L.call(deduplicateByKey, X, _selector(L, 'querySiteIdSelector'))
+    return eng, Rv, Qv, start, L.view(X), gap, L.view(D1), D1
+
+
+def _order_preserving(L):
+    """pairs surviving the query-keyed pass are order preserving (the reference-keyed pass only removes pairs): the midpoint argument"""
+    eng, R, Q, start, X, gap, D1, _ = _setup(L)
+    k, k2 = z3.Int('k'), z3.Int('k2')
+    L.check('kept_pairs_are_order_preserving', forall([k, k2], z3.Implies(
+        z3.And(rng(0, k, D1.len), rng(0, k2, D1.len), D1[k].reference.position < D1[k2].reference.position),
+        D1[k].query.position <= D1[k2].query.position), [MP(D1.raw(k).t, D1.raw(k2).t)]))
+
+
+def _mutual_nearest(L):
+    """labels that are strictly each other's nearest partner within maxDistance are paired"""
+    from specs.dedupe import deduplicate
+    from specs.common import zabs
+    eng = L.fresh(ENGINE, 'engine')
+    R, Q = L.fresh(LIST(PWS), 'R'), L.fresh(LIST(PWS), 'Q')
+    start = L.fresh(REAL, 'start')
+    Rv, Qv = L.view(R), L.view(Q)
+    d = L.view(eng).maxDistance
+    L.assume(ascending_pws(Rv), ascending_pws(Qv), _strict_ids(Rv), _strict_ids(Qv), d >= 0)
+    X = L.call(getAlignedPairs, eng, R, Q, start)
+    D = L.view(L.call(deduplicate, X))
+    i, j, i2, j2, k = z3.Int('i'), z3.Int('j'), z3.Int('i2'), z3.Int('j2'), z3.Int('k')
+    startv = L.view(start)
+    off = lambda a, b: Qv[b].position - (Rv[a].position - startv)
+    mutual = z3.And(rng(0, i, Rv.len), rng(0, j, Qv.len), zabs(off(i, j)) <= d,
+                    forall(j2, z3.Implies(z3.And(rng(0, j2, Qv.len), j2 != j), zabs(off(i, j2)) > zabs(off(i, j))), [Qv.raw(j2).t]),
+                    forall(i2, z3.Implies(z3.And(rng(0, i2, Rv.len), i2 != i), zabs(off(i2, j)) > zabs(off(i, j))), [Rv.raw(i2).t]))
+    L.check('mutually_strictly_nearest_labels_are_paired', forall([i, j], z3.Implies(mutual, z3.Exists([k], z3.And(
+        rng(0, k, D.len), D[k].reference.ref == Rv.raw(i).t, D[k].query.ref == Qv.raw(j).t))), [MP(Rv.raw(i).t, Qv.raw(j).t)]))
+
+
+LEMMAS = [LemmaSpec('C12::mutually_strictly_nearest_labels_within_maxDistance_are_paired', _mutual_nearest, ('C12',),
+                    "from the contracts of __getAlignedPairs (completeness of the candidates) and deduplicate (a candidate strictly nearer than every other candidate sharing one of its labels survives)"),
+          LemmaSpec('C12::pairs_kept_by_the_query_keyed_pass_are_order_preserving', _order_preserving, ('C12', 'C01'),
+                    "from the contracts of __getAlignedPairs (candidates are exactly the in-range pairs) and __deduplicateByKey (nearest candidate per query label)")]
